@@ -519,6 +519,7 @@ func (t *trzszTransfer) pipelineReadData(ctx *pipelineContext, file fileReader) 
 				m = bufSize
 			}
 			buffer := make([]byte, m)
+			vhook("pipeline.read", int(step))
 			n, err := file.Read(buffer)
 			if n > 0 {
 				select {
